@@ -227,7 +227,10 @@ pub fn judge_admitted(
             }
             match chain.messages.get(&m.nonce) {
                 Some(cm) => {
-                    if cm.sender != m.sender || cm.recipient != m.recipient || cm.amount != m.amount
+                    if cm.sender != m.sender
+                        || cm.recipient != m.recipient
+                        || cm.amount != m.amount
+                        || cm.data != m.data
                     {
                         out.push(adm(
                             "c19 admitted_chain_message_mismatch",
@@ -361,7 +364,8 @@ pub fn is_plain(t: &TxInfo, before: &Snap, chain: &ChainState, model: &Model, cf
             Some(cm)
                 if cm.sender == m.sender
                     && cm.recipient == m.recipient
-                    && cm.amount == m.amount => {}
+                    && cm.amount == m.amount
+                    && cm.data == m.data => {}
             _ => return false,
         }
         if model.handed_out_msg(&m.nonce).is_some() || model.cache.ever.contains(&Key::Msg(m.nonce)) {
